@@ -5,7 +5,7 @@
 (* side of the C04 comparison -- plus, once per type, the descriptor from  *)
 (* which harness/gen.py generates the Rust definition.                     *)
 (***************************************************************************)
-EXTENDS Catalog, FlatLayout, Json
+EXTENDS Catalog, FlatValues, Json
 
 VARIABLES ci, L
 vars == <<ci, L>>
@@ -31,8 +31,33 @@ Facts == [id |-> Catalog[ci].id, L |-> L, align |-> Align(T), sized |-> IsSized(
           size |-> StaticSize(T), min |-> MinSize(T), offs |-> OffsOf(T), dataoff |-> DataOff(T),
           view |-> ViewLen(T, L), cap |-> CapOf(T, L), portable |-> IsPortable(T)]
 
+(* What the accessors of a mapped value must hand out, as addresses relative to the start of the   *)
+(* buffer: fields, enum payload fields, container data, capacities (the shape mirrors             *)
+(* Shape::probe of the harness).                                                                  *)
+RECURSIVE Probe(_, _, _, _)
+ProbeFields(fs, vals, total, base) ==
+  LET offs == FieldOffs(fs) IN
+  [offs |-> [i \in DOMAIN fs |-> base + offs[i]],
+   subs |-> [i \in DOMAIN fs |-> Probe(vals[i], fs[i], total - offs[i], base + offs[i])]]
+Probe(x, t, l, base) ==
+  CASE t.k \in {"prim", "pint", "pfloat", "unit", "bool"} -> [leaf |-> TRUE]
+    [] t.k = "arr"  -> [elems |-> [i \in 1..t.n |-> base + (i - 1) * StaticSize(t.elem[1])]]
+    [] t.k = "vec"  -> [data |-> base + VecDataOffset(t), cap |-> VecCap(t, l)]
+    [] t.k = "str"  -> [data |-> base + StrDataOffset(t), cap |-> StrCap(t, l)]
+    [] t.k = "flex" -> [data |-> IF x.items = <<>> THEN -1 ELSE base + FlexOffsetSize(t)]
+    [] t.k = "struct" -> ProbeFields(t.fields, x, IF t.sized THEN StaticSize(t) ELSE FloorMul(l, Align(t)), base)
+    [] t.k = "enum" ->
+         IF IsCLike(t) THEN [tag |-> x.tag]
+         ELSE [tag |-> x.tag] @@ ProbeFields(t.vars[x.tag], x.fs,
+                                             IF t.sized THEN StaticSize(t) - EnumDataOffset(t) ELSE EnumDataLen(t, l),
+                                             base + EnumDataOffset(t))
+
+Trees == TV(T, L)
+LayoutCase(vi) == [k |-> "layout", id |-> Catalog[ci].id, L |-> L, facts |-> Facts,
+                   img |-> Fill(Enc(Trees[vi], T, L), 0), tree |-> Trees[vi], probe |-> Probe(Trees[vi], T, L, 0)]
+
 EmitDesc == L = MinSize(T) => PrintT(<<"DESC", ToJson(Catalog[ci])>>)
-EmitFacts == PrintT(<<"CASE", ToJson(Facts)>>)
+EmitFacts == \A vi \in 1..Len(Trees) : PrintT(<<"CASE", ToJson(LayoutCase(vi))>>)
 
 WF == WellFormed(T)
 Sane == LayoutSane(T)
